@@ -6,6 +6,7 @@ import (
 	"encoding/json"
 	"encoding/xml"
 	"fmt"
+	"io"
 	"math"
 	"os"
 	"os/exec"
@@ -645,6 +646,17 @@ func C17Worker(seed uint64, procs int, tier string, out string) error {
 	return os.WriteFile(out, b, 0o644)
 }
 
+func readHead(path string, max int) []byte {
+	f, err := os.Open(path)
+	if err != nil {
+		return nil
+	}
+	defer f.Close()
+	buf := make([]byte, max)
+	n, _ := io.ReadFull(f, buf)
+	return buf[:n]
+}
+
 var raceFrameRe = regexp.MustCompile(`(?m)^\s+(github\.com/twpayne/go-geom[^\s(]*)\(`)
 
 // c17Special is the parent: children at several GOMAXPROCS values and seeds
@@ -693,17 +705,42 @@ func c17Special(p *fw.Parent) int {
 			}
 			go func() { done <- cmd.Wait() }()
 			var err error
-			select {
-			case err = <-done:
-			case <-time.After(20 * time.Minute):
-				cmd.Process.Kill()
-				sum.AddInconclusive(fmt.Sprintf("watchdog: race worker seed=%d procs=%d exceeded 20m", j.seed, j.procs))
-				return
+			deadline := time.After(20 * time.Minute)
+			tick := time.NewTicker(500 * time.Millisecond)
+			flooded := false
+		wait:
+			for {
+				select {
+				case err = <-done:
+					break wait
+				case <-deadline:
+					cmd.Process.Kill()
+					<-done
+					sum.AddInconclusive(fmt.Sprintf("watchdog: race worker seed=%d procs=%d exceeded 20m", j.seed, j.procs))
+					tick.Stop()
+					return
+				case <-tick.C:
+					// a racy build can write gigabytes of reports: a few MB are enough evidence
+					var sz int64
+					files, _ := filepath.Glob(logp + ".*")
+					for _, f := range files {
+						if st, e := os.Stat(f); e == nil {
+							sz += st.Size()
+						}
+					}
+					if sz > 4<<20 {
+						flooded = true
+						cmd.Process.Kill()
+						err = <-done
+						break wait
+					}
+				}
 			}
+			tick.Stop()
 			// race reports
 			files, _ := filepath.Glob(logp + ".*")
 			for _, f := range files {
-				data, _ := os.ReadFile(f)
+				data := readHead(f, 8<<20)
 				blocks := strings.Split(string(data), "==================")
 				for _, blk := range blocks {
 					if !strings.Contains(blk, "WARNING: DATA RACE") {
@@ -734,6 +771,10 @@ func c17Special(p *fw.Parent) int {
 				}
 			}
 			data, rerr := os.ReadFile(out)
+			if rerr != nil && flooded {
+				sum.AddCounter("rounds_stopped_after_race_report_flood", 1)
+				return
+			}
 			if rerr != nil {
 				// the child died (fatal error: concurrent map writes, checkptr, ...)
 				v := fw.Violation{Prop: "C17", Class: "race", Seed: j.seed, Tier: p.Tier, Kind: "process-death",
